@@ -3,7 +3,7 @@ import warnings
 import numpy as np, pandas as pd
 from fractions import Fraction
 from core import Result
-import proto, gen
+import proto, gen, implutil
 
 THEOREMS = ['C06_rule', 'C06_length', 'C06_pointwise', 'C06_sound', 'C06_complete', 'C06_ends', 'C06_strict',
             'C06_antitone', 'C06_rejects_threshold', 'C06_rejects_minN', 'C06_pipeline']
@@ -59,14 +59,13 @@ def _impl_signal(c):
         th = dict(c['th']); snap = repr(th)
         # (a settings dictionary shared with the amplitude method may carry its own min_n_cycles in burst_kwargs: the consistency method ignores it)
         bkx = {'min_n_cycles': 7, 'amp_threshes': (1, 2)} if len(c['sig']) % 3 == 0 else None
-        df0 = compute_features(proto.hex2arr(c['sig']), c['fs'], tuple(c['f_range']), center_extrema=c['center'], burst_method='cycles', burst_kwargs=bkx, threshold_kwargs=th)
+        df0 = compute_features(proto.hex2arr(c['sig']), c['fs'], implutil.frange(c), center_extrema=c['center'], burst_method='cycles', burst_kwargs=bkx, threshold_kwargs=th)
         # the same thresholds dictionary again (a session / an object re-using its settings)
-        df = compute_features(proto.hex2arr(c['sig']), c['fs'], tuple(c['f_range']), center_extrema=c['center'], burst_method='cycles', threshold_kwargs=th)
+        df = compute_features(proto.hex2arr(c['sig']), c['fs'], implutil.frange(c), center_extrema=c['center'], burst_method='cycles', threshold_kwargs=th)
         if repr(th) != snap or not df.equals(df0):
             raise AssertionError('second call with the same thresholds dictionary differs')
         # the same thresholds through a Bycycle object with a history, given to the constructor under their documented SHORT names
-        import implutil
-        dfo = implutil.object_route(proto.hex2arr(c['sig']), c['fs'], tuple(c['f_range']), c['center'], 'cycles', None, dict(c['th']), None,
+        dfo = implutil.object_route(proto.hex2arr(c['sig']), c['fs'], implutil.frange(c), c['center'], 'cycles', None, dict(c['th']), None,
                                     True, shorthand=(len(c['sig']) % 2 == 0))
         if not dfo['is_burst'].equals(df['is_burst']):
             raise AssertionError('Bycycle object (history, shorthand threshold names) labels differ from compute_features')
